@@ -418,12 +418,7 @@ func twin(a newArgs, k int) newArgs {
 
 func execNewreq(ts []string) string {
 	a := parseNewArgs(ts)
-	// a request is a value of its own: what was constructed and encoded before it, and what is encoded after it, leaves no
-	// trace in its frame (a relative is built and encoded first, another one afterwards)
-	if r0, err := construct(twin(a, 0)); err == nil {
-		_ = r0.Bytes()
-	}
-	// ... and what a caller did to an earlier request made with the same arguments (it re-targeted it: every exported field
+	// what a caller did to an earlier request made with the same arguments (it re-targeted it: every exported field
 	// and every payload byte changed) is its own business: the next request made with these arguments is a new value
 	as := a
 	as.data, as.coils = append([]byte{}, a.data...), append([]bool{}, a.coils...) // the library may keep the caller's slice
@@ -431,6 +426,11 @@ func execNewreq(ts []string) string {
 		_ = rs.Bytes()
 		scribbleValue(reflect.ValueOf(rs))
 		_ = rs.Bytes()
+	}
+	// ... and a request is a value of its own: what was constructed and encoded before it, and what is encoded after it, leaves no
+	// trace in its frame (a relative is built and encoded first, another one afterwards)
+	if r0, err := construct(twin(a, 0)); err == nil {
+		_ = r0.Bytes()
 	}
 	r, err := construct(a)
 	if err != nil {
